@@ -6,7 +6,7 @@ CONSTANTS
   MaxTip = 4
   Mat = 2
   Answers = {"accepted", "inmempool", "rejected", "notifyfail1", "notifyfail2"}
-  Acts = {"Receive", "Mine", "Lock", "Lease", "Send", "SendExplicit", "FundOwn", "DryRun", "Restart"}
+  Acts = {"Receive", "Mine", "Lock", "Lease", "Send", "SendExplicit", "FundOwn", "DryRun", "Restart", "RestartRej"}
   LockCoins = {1, 2, 3, 5, 7, 8}
   MaxHist = 28
   FullHist = TRUE
